@@ -165,6 +165,11 @@ for prefix in (b"", b"p:", b"q" * 10):
           ops.append(("gets_many-iterator", lambda c: c.gets_many(iter([key, b"other"])), lambda: [(b"gets", (k, prefix + b"other"))]))
           ops.append(("set-str-flags", lambda c: c.set(key, b"v", noreply=True, flags="0 0 1 noreply\r\nx\r\nset q"), None))
           ops.append(("set_many-one-illegal", lambda c: c.set_many({b"ok": b"1", key: b"2", b"bad key": b"3"}, noreply=True), None))
+          # one illegal key anywhere in a multi-key call: nothing at all is sent
+          ops.append(("delete_many-one-illegal-later", lambda c: c.delete_many([b"ok1", b"ok2", b"bad key"], noreply=True), None))
+          ops.append(("delete_many-one-illegal-middle", lambda c: c.delete_many([b"ok1", b"bad\nkey", b"ok2"], noreply=False), None))
+          ops.append(("get_many-one-illegal-later", lambda c: c.get_many([b"ok1", b"ok2", b"x" * 251]), None))
+          ops.append(("gets_many-one-illegal-first", lambda c: c.gets_many([b"bad key", b"ok1"]), None))
           for name, call, want in ops:
               m = FakeModule([b"STORED\r\nEND\r\nDELETED\r\n"])
               c = Client(("h", 1), socket_module=m, key_prefix=prefix, allow_unicode_keys=uni, encoding=encoding)
